@@ -15,15 +15,20 @@
 (* through the same actions.                                               *)
 (***************************************************************************)
 EXTENDS Integers, Sequences, FiniteSets, TLC
-CONSTANTS Modules, MaxLen
+CONSTANTS Modules, MaxLen,
+          Alphabet      \* "full": every action, constructors with arguments;
+                        \* "perm": longer histories over the permission-relevant actions only (grant, revoke-all, constructors
+                        \*         with and without arguments in the untrusted context), the modules being loaded beforehand
 
 Ctxs == {0, 1, 2}       \* 0: trusted host context (like the CLI), 1: untrusted (embedded default), 2: a clone made later
 VARIABLES granted, loaded, ctx, hist
 vars == <<granted, loaded, ctx, hist>>
 
-Init == /\ granted = {} /\ loaded = {}
+ModSeq == CHOOSE q \in [1..Cardinality(Modules) -> Modules] : \A a, b \in DOMAIN q : a # b => q[a] # q[b]
+Prefix == IF Alphabet = "perm" THEN [j \in DOMAIN ModSeq |-> [a |-> "import", c |-> 0, m |-> ModSeq[j], ok |-> TRUE]] ELSE <<>>
+Init == /\ granted = {} /\ loaded = (IF Alphabet = "perm" THEN Modules ELSE {})
         /\ ctx = [c \in Ctxs |-> [alive |-> c # 2, trusted |-> c = 0, objs |-> {}]]
-        /\ hist = <<>>
+        /\ hist = Prefix
 
 Rec(a) == hist' = Append(hist, a)
 
@@ -44,20 +49,25 @@ Include(c) == /\ ctx[c].alive /\ UNCHANGED <<granted, loaded, ctx>> /\ Rec([a |-
 
 CtorAllowed(c, m) == m \in loaded /\ (ctx[c].trusted \/ m \in granted)
 \* compile and run  O = m(...)  at top level / inside a function body then called
-Ctor(c, m, where) == /\ ctx[c].alive
+Ctor(c, m, where, form) ==
+                     /\ ctx[c].alive
                      /\ ctx' = IF CtorAllowed(c, m) THEN [ctx EXCEPT ![c].objs = @ \cup {m}] ELSE ctx
                      /\ UNCHANGED <<granted, loaded>>
-                     /\ Rec([a |-> "ctor", c |-> c, m |-> m, where |-> where, ok |-> CtorAllowed(c, m), known |-> m \in loaded])
+                     /\ Rec([a |-> "ctor", c |-> c, m |-> m, where |-> where, form |-> form, ok |-> CtorAllowed(c, m), known |-> m \in loaded])
 \* a typed declaration  D:m;  creates no object
 Decl(c, m) == /\ ctx[c].alive /\ UNCHANGED <<granted, loaded, ctx>> /\ Rec([a |-> "decl", c |-> c, m |-> m, known |-> m \in loaded])
 
-Next == /\ Len(hist) < MaxLen
-        /\ \/ \E m \in Modules : Unban(m)
-           \/ ClearPermissions
-           \/ Clone(1, 2) \/ Clone(0, 2)
-           \/ \E c \in Ctxs, m \in Modules : ImportByName(c, m) \/ ImportByPath(c, m) \/ Decl(c, m)
-           \/ \E c \in Ctxs : Include(c)
-           \/ \E c \in Ctxs, m \in Modules, w \in {"top", "func"} : Ctor(c, m, w)
+Next == /\ Len(hist) < MaxLen + Len(Prefix)
+        /\ IF Alphabet = "perm"
+           THEN \/ \E m \in Modules : Unban(m)
+                \/ ClearPermissions
+                \/ \E m \in Modules, f \in {"args", "default"} : Ctor(1, m, "top", f)
+           ELSE \/ \E m \in Modules : Unban(m)
+                \/ ClearPermissions
+                \/ Clone(1, 2) \/ Clone(0, 2)
+                \/ \E c \in Ctxs, m \in Modules : ImportByName(c, m) \/ ImportByPath(c, m) \/ Decl(c, m)
+                \/ \E c \in Ctxs : Include(c)
+                \/ \E c \in Ctxs, m \in Modules, w \in {"top", "func"} : Ctor(c, m, w, "args")
 Spec == Init /\ [][Next]_vars
 
 (* ------------------------------ properties ---------------------------- *)
